@@ -175,6 +175,24 @@ def run(ctx):
             if e.kind == 'branch' and e.atom[0] == 'bin' and e.atom[1] == '==' and {e.atom[2], e.atom[3]} >= {VC} and any(t[0] == 'field' and t[2] == VAR + '::visited_' for t in (e.atom[2], e.atom[3])):
                 skipped = True
     ctx.check(stamped and skipped, 'R4', 'update_modified_cnst_set_rec: stamp = counter, skip iff stamp == counter', where(rec), 'stamped=%s skip-test=%s' % (stamped, skipped), key='R4|rec|stamp')
+    # closure: every constraint the walk adds to the modified set is walked in turn (the set must be closed under "shares an enabled variable with")
+    MS = lib.this_field(SYS + '::modified_constraint_set')
+    closed = None
+    npush = 0
+    for p in v.paths(max_visits=2):
+        evs = v.path_events(p)
+        for i, e in enumerate(evs):
+            if e.kind == 'call' and e.obj == MS and e.q.rsplit('::', 1)[-1] in ('push_back', 'push_front', 'insert') and e.args:
+                npush += 1
+                what = e.args[0]
+                while what[0] in ('un', 'cast', 'conv') and (what[0] != 'un' or what[1] == '*'):
+                    what = what[2]
+                nxt = [x for x in evs[i + 1:] if x.kind == 'call' and x.q == SYS + '::update_modified_cnst_set_rec']
+                good = bool(nxt) and ex.mentions(nxt[0].args[0], what)
+                closed = good if closed is None else (closed and good)
+    ctx.require(npush >= 1, 'R4', 'update_modified_cnst_set_rec: no insertion into modified_constraint_set found')
+    ctx.check(bool(closed), 'R4', 'update_modified_cnst_set_rec: each constraint it adds to the modified set is walked recursively', where(rec),
+              '' if closed else 'a constraint is added without being walked: the constraints that share a variable with it are not recomputed', key='R4|rec|closure')
     rm = P.fn(SYS + '::remove_all_modified_cnst_set')
     v = A.view(rm)
     okwrap = okclear = False
